@@ -4,7 +4,7 @@ import copy
 import random
 import re
 
-from harness import core, gristenv as G, histgen, schedtrace as ST
+from harness import core, gristenv as G, histgen, schedtrace as ST, sk2v
 
 ID = 'C06'
 TITLE = 'Formula results do not depend on evaluation order'
@@ -158,7 +158,12 @@ def lookups_rule_demo(lookups_last):
   return G.snapshot(e, tables=['T'])['T']['cols']['B']
 
 
+def regenerate(ctx):
+  sk2v.regenerate(ctx)
+
+
 def correspond(ctx):
+  sk2v.differential(ctx)
   # the model's claim about the lookups-first rule (theorem lookups_first_is_needed), on the engine
   first, last = ST.limited2(lambda: lookups_rule_demo(False)), ST.limited2(lambda: lookups_rule_demo(True))
   ctx.bump('tie:lookups-first example replayed on the engine')
